@@ -1078,3 +1078,39 @@ def first_match_loops(ctx, quals: Iterable[str], why: str, suffixes: Tuple[str, 
             else:
                 ctx.ok(construct, f.loc(n))
     return n_loops
+
+
+# --------------------------------------------------------------------------- user state is stored whatever the current evaluation says
+EVALUATED = (".visibility", ".str_value", ".bool_value", ".selection", ".assignable", "expr_value(", "._cached_", ".config_string")
+
+
+def stores_independent_of_evaluation(ctx, quals: Iterable[str], attrs: Tuple[str, ...], why: str) -> int:
+    """Every store to one of `attrs` (user value, user pick, per-load marks) in the given setters is reached under conditions
+    that read only the arguments and stored state - never an *evaluated* quantity (visibility, current value, current
+    selection). What an assignment records must not depend on the configuration it arrives in: two histories with the same
+    assignments in a different order, or a replacing load after edits, would otherwise store different user state."""
+    repo = ctx.repo
+    n = 0
+    for q in quals:
+        f = repo.func(q)
+        ctx.analysed(q)
+        fl = Flow(f.node, resolver=Resolver(f.node)).run()
+        for st in own_nodes(repo, f):
+            if not (isinstance(st, ast.Assign) and any(isinstance(t, ast.Attribute) and t.attr in attrs for t in st.targets)):
+                continue
+            if isinstance(st.value, ast.Constant) and st.value.value is None:
+                continue
+            n += 1
+            tgt = ast.unparse(st.targets[0])
+            construct = f"{f.short}/store {tgt} does not depend on the current evaluation"
+            gs = fl.guards_at(st) or set()
+            dep = []
+            for k, pol in sorted(gs):
+                full = expand_locals(f.node, parse_key(k))
+                if any(tok in full for tok in EVALUATED):
+                    dep.append(f"{'' if pol else 'not '}({full[:80]})")
+            if dep:
+                ctx.bad(construct, f"`{ast.unparse(st)[:50]}` is reached only under {dep}: {why}", f.loc(st))
+            else:
+                ctx.ok(construct, f.loc(st))
+    return n
